@@ -44,6 +44,22 @@ except:
     Decimal = type(None)
 
 
+def _object_cast(m):
+    return np.array(m, dtype=object)
+
+def _raw_cast(x, y, n_bits, n_frac=0):
+    """
+    Returns the cast to apply to raw values (and scale factors) of `x` and `y` before operating with them.
+
+    Python integers (object arrays) are used instead of 64 bits machine integers when the intermediate
+    values need `n_bits` that could not fit in them, or when numpy would convert the operands to float
+    (mix of signed and unsigned 64 bits integers) losing precision over 53 bits.
+    """
+    mixed = np.asarray(x.val).dtype != np.asarray(y.val).dtype
+    if n_frac >= _n_word_max or n_bits >= _n_word_max - 1 or (mixed and n_bits >= 53):
+        return _object_cast
+    return lambda m: m
+
 def _get_sizing(vars, sizing, method, optimal_size=None):
         if not isinstance(vars, list):
             vars = [vars]
@@ -315,8 +331,9 @@ def add(x, y, out=None, out_like=None, sizing='optimal', method='raw', **kwargs)
     """
     """
     def _add_raw(x, y, n_frac):
-        precision_cast = (lambda m: np.array(m, dtype=object)) if n_frac >= _n_word_max else (lambda m: m)
-        return x.val * precision_cast(2**(n_frac - x.n_frac)) + y.val * precision_cast(2**(n_frac - y.n_frac))
+        n_bits = max(x.n_word + max(n_frac - x.n_frac, 0), y.n_word + max(n_frac - y.n_frac, 0)) + 1
+        precision_cast = _raw_cast(x, y, n_bits, n_frac)
+        return precision_cast(x.val) * precision_cast(2**(n_frac - x.n_frac)) + precision_cast(y.val) * precision_cast(2**(n_frac - y.n_frac))
 
     if not isinstance(x, Fxp):
         x = Fxp(x)
@@ -336,8 +353,9 @@ def sub(x, y, out=None, out_like=None, sizing='optimal', method='raw', **kwargs)
     """
     """
     def _sub_raw(x, y, n_frac):
-        precision_cast = (lambda m: np.array(m, dtype=object)) if n_frac >= _n_word_max else (lambda m: m)
-        return x.val * precision_cast(2**(n_frac - x.n_frac)) - y.val * precision_cast(2**(n_frac - y.n_frac))
+        n_bits = max(x.n_word + max(n_frac - x.n_frac, 0), y.n_word + max(n_frac - y.n_frac, 0)) + 1
+        precision_cast = _raw_cast(x, y, n_bits, n_frac)
+        return precision_cast(x.val) * precision_cast(2**(n_frac - x.n_frac)) - precision_cast(y.val) * precision_cast(2**(n_frac - y.n_frac))
 
     if not isinstance(x, Fxp):
         x = Fxp(x)
@@ -357,8 +375,8 @@ def mul(x, y, out=None, out_like=None, sizing='optimal', method='raw', **kwargs)
     """
     """
     def _mul_raw(x, y, n_frac):
-        precision_cast = (lambda m: np.array(m, dtype=object)) if n_frac >= _n_word_max else (lambda m: m)
-        raw_cast = (lambda m: np.array(m, dtype=object)) if (x.n_word + y.n_word) >= _n_word_max else (lambda m: m)
+        n_bits = x.n_word + y.n_word + max(n_frac - x.n_frac - y.n_frac, 0)
+        precision_cast = raw_cast = _raw_cast(x, y, n_bits, n_frac)
         return raw_cast(x.val) * raw_cast(y.val) * precision_cast(2**(n_frac - x.n_frac - y.n_frac))
 
     if not isinstance(x, Fxp):
